@@ -659,6 +659,11 @@ class Frame:
         I = self.I
         if isinstance(e, ast.Constant):
             return Interp.const_type(e)
+        if isinstance(e, ast.NamedExpr) and isinstance(e.target, ast.Name):
+            t = self.ev(e.value, env)
+            env.types[e.target.id] = t          # (n := f(x)): the value, and n bound to it from here on
+            env.member = {m for m in env.member if not (isinstance(m, tuple) and len(m) == 2 and m[1] == e.target.id)}
+            return t
         if isinstance(e, ast.Name):
             if e.id in env.types:
                 return env.types[e.id] - {"unbound"} or TOP
